@@ -8,7 +8,7 @@ ROOT = os.path.dirname(os.path.dirname(os.path.abspath(__file__)))
 LEAN = os.path.join(ROOT, "lean")
 HARNESS = os.path.join(ROOT, "harness")
 WORK = os.path.join(ROOT, "work")
-REPO = "/repo"
+REPO = os.environ.get("OQ3_REPO", "/repo")
 DRIVER = os.path.join(LEAN, ".lake", "build", "bin", "driver")
 RUNNER = os.path.join(HARNESS, "target", "debug", "oq3-run")
 NPROC = min(16, os.cpu_count() or 4)
